@@ -80,6 +80,7 @@ class _Ctx:
         self.in_probe = 0
         self.linalg_faults = [{"kind": "linalg", "fn": "eigh", "at": f["at"]} for f in faults if f["kind"] == "linalg"]
         self.linalg_calls = {}
+        self.eval_idx = 0
         self.knobs = []
         self.fired = {}
         self.events = []
